@@ -34,20 +34,19 @@ func runC35(c *Ctx) {
 	}
 	// (2)
 	{
-		okEmpty, okRest := false, false
-		for _, ef := range edgeFacts(root) {
-			s := ef.From.Succs[ef.Succ]
-			r, isR := s.Instrs[len(s.Instrs)-1].(*ssa.Return)
-			if !isR {
-				continue
+		all := func(n int64, want func(string) bool) bool {
+			vs := returnedUnder(root, 0, map[string]int64{"len(p0)": n})
+			for _, v := range vs {
+				if !want(trace(v)) {
+					return false
+				}
 			}
-			t := trace(r.Results[0])
-			switch ef.Fact {
-			case "len(p0) == 0":
-				okEmpty = t == "Blake2b256Hash(nil)" || t == "Blake2b256Hash(nil:[]byte)"
-			case "len(p0) != 0":
-				okRest = t == "merkleNode(p0)"
-			}
+			return len(vs) > 0
+		}
+		okEmpty := all(0, func(t string) bool { return t == "Blake2b256Hash(nil)" || t == "Blake2b256Hash(nil:[]byte)" })
+		okRest := true
+		for _, n := range []int64{1, 2, 3, 7} {
+			okRest = okRest && all(n, func(t string) bool { return t == "merkleNode(p0)" })
 		}
 		c.Check(okEmpty, "merkle-root", ssaFuncKey(root)+":empty", root.Pos(), "an empty list hashes the empty string", "MerkleRoot of an empty list is not Blake2b256 of the empty string")
 		c.Check(okRest, "merkle-root", ssaFuncKey(root)+":non-empty", root.Pos(), "a non-empty list is the root node over all items", "MerkleRoot of a non-empty list is not merkleNode(items)")
